@@ -44,20 +44,20 @@ var simFlags = []int{1, 3, 100}
 
 // ---- per-run state shared by the registered content ----
 type simRun struct {
-	sim      *simulation.Simulation
-	scripts  [][]term.T
-	acts     map[key.TargetID][]int
-	next     map[key.TargetID][]term.T
-	ults     [][]term.T
-	lBattle  []int
-	lAction  []int
-	lHit     []int
-	lDeath   []int
-	budget   int
-	rev      map[key.TargetID]bool
-	trace    []term.T
-	subbed   bool
-	nevents  int
+	sim     *simulation.Simulation
+	scripts [][]term.T
+	acts    map[key.TargetID][]int
+	next    map[key.TargetID][]term.T
+	ults    [][]term.T
+	lBattle []int
+	lAction []int
+	lHit    []int
+	lDeath  []int
+	budget  int
+	rev     map[key.TargetID]bool
+	trace   []term.T
+	subbed  bool
+	nevents int
 }
 
 var curSim *simRun
